@@ -809,6 +809,9 @@ Pointset_Powerset<PSET>::strictly_contains(const Pointset_Powerset& y) const {
      contained in another disjunct of *this */
   const Pointset_Powerset& x = *this;
   x.omega_reduce();
+  // Also `y' has to be reduced: an empty (or otherwise redundant) disjunct
+  // of `y' must not affect the answer.
+  y.omega_reduce();
   for (Sequence_const_iterator si = y.sequence.begin(),
          y_s_end = y.sequence.end(); si != y_s_end; ++si) {
     const PSET& pi = si->pointset();
